@@ -73,6 +73,16 @@ class Scanner:
             end = self.end
         return self.string[start:end]
 
+    def current_int(self) -> int:
+        """
+        Returns integer value of current range. A digit run the interpreter
+        refuses to convert (too many digits) is reported as scanner error
+        """
+        try:
+            return int(self.current())
+        except ValueError:
+            raise self.error('Invalid number', self.start)
+
     def error(self, message: str, pos: int = None):
         "Creates error object with current stream state"
         if pos is None:
